@@ -53,6 +53,7 @@ type lhEvent struct {
 type lhParams struct {
 	k, alpha, beta int
 	mode           ModeOpt
+	modeSet        bool // mode is meaningful even when it is the zero value (ModeAuto)
 	opts           []Option
 	hostOpts       func(h host.Host) []Option // options that need the host
 }
@@ -64,7 +65,7 @@ func newLH(x *vmc.X, w *sim.World, p lhParams) (*lh, error) {
 	l.h = sim.NewHost(w.Self)
 	l.h.DialFn = l.net.Dial
 	mode := p.mode
-	if mode == 0 {
+	if mode == 0 && !p.modeSet {
 		mode = ModeClient
 	}
 	opts := []Option{
@@ -122,6 +123,7 @@ func (l *lh) drain() {
 func (l *lh) cancelEventsOnly() {}
 
 func (l *lh) close() {
+	l.h.ResetAllStreams()
 	l.cancel()
 	l.d.Close()
 	l.h.Close()
